@@ -367,8 +367,10 @@ func (s *StdNetBind) Send(bufs [][]byte, endpoint Endpoint) error {
 	defer s.udpAddrPool.Put(ua)
 	if is6 {
 		as16 := endpoint.DstIP().As16()
-		copy(ua.IP, as16[:])
+		// The pooled slice may have been left with length 4 by an IPv4 Send:
+		// reslice before copying, or only 4 of the 16 bytes are written.
 		ua.IP = ua.IP[:16]
+		copy(ua.IP, as16[:])
 	} else {
 		as4 := endpoint.DstIP().As4()
 		copy(ua.IP, as4[:])
